@@ -255,6 +255,7 @@ impl PolyCase {
             .set("constructed_from_roots_re_im", cj(&self.built_from))
             .set("tol", self.tol)
             .set("n_max", N_MAX)
+            .set("polynomial_zero_tolerance", self.small_scale_tolerance().map(J::from).unwrap_or(J::from("default 1e-10")))
     }
     fn hash(&self) -> u64 {
         let mut h = CaseHash::new("c14").u(self.real_type as u64).u(self.exact_sparse as u64).f(self.tol);
@@ -262,6 +263,17 @@ impl PolyCase {
             h = h.f(c.re).f(c.im);
         }
         h.0
+    }
+    /// small-scale members (|leading coefficient| < 1e-8): the polynomial's own zero tolerance is set
+    /// far below its coefficients, so that the leading coefficient is "non-negligible" as the
+    /// property requires (the default tolerance 1e-10 would make it negligible)
+    fn small_scale_tolerance(&self) -> Option<f64> {
+        let lead = self.asc.last().map(|c| c.norm()).unwrap_or(1.0);
+        if lead < 1e-8 {
+            Some(lead * 1e-12)
+        } else {
+            None
+        }
     }
     fn call(&self) -> Guarded<Result<Vec<C>, String>> {
         let tol = self.tol;
@@ -277,6 +289,10 @@ impl PolyCase {
             } else {
                 self.asc.iter().map(|c| c.re).collect()
             };
+            let mut p = p;
+            if let Some(t) = self.small_scale_tolerance() {
+                let _ = p.set_tolerance(t);
+            }
             probe::guard(move || p.roots(tol, N_MAX).map(|v| v.into_iter().collect::<Vec<C>>()))
         } else {
             let p: Polynomial<C> = if self.exact_sparse {
@@ -290,6 +306,10 @@ impl PolyCase {
             } else {
                 self.asc.iter().copied().collect()
             };
+            let mut p = p;
+            if let Some(t) = self.small_scale_tolerance() {
+                let _ = p.set_tolerance(t);
+            }
             probe::guard(move || p.roots(tol, N_MAX).map(|v| v.into_iter().collect::<Vec<C>>()))
         }
     }
@@ -342,7 +362,21 @@ fn run_poly(rep: &mut Report, mut pc: PolyCase, u: f64) {
     }
     let floor = tol_floor(&pc.asc, &truth, &dps, true);
     let lead = pc.asc[deg].norm();
-    let hi = floor.max(1e-6);
+    let mut hi = floor.max(1e-6);
+    if pc.small_scale_tolerance().is_some() {
+        // small-scale members: `tol` is an absolute residual bound AND an absolute step bound. The
+        // residual rule |p(z)| < tol only identifies a root if tol is far below |p'(r)| x separation,
+        // which for tiny coefficients is far below 1e-6; the step rule needs tol above the
+        // scale-free rounding floor. Keep tol in [floor, 1e-3 min|p'(r)|]; drop the case when
+        // that window is narrower than a factor 4 (no tolerance serves both roles).
+        let dmin = dps.iter().cloned().fold(f64::INFINITY, f64::min);
+        hi = (1e-3 * dmin).min(1e-6);
+        if !(hi >= 4.0 * floor) {
+            rep.count("small_scale/skipped_no_tolerance_serves_both_stopping_rules", 1);
+            return;
+        }
+        rep.count("small_scale/cases", 1);
+    }
     if pc.pin.is_some() {
         if !(pc.tol >= floor) {
             rep.harness_errors.push(format!("pinned input {:?}: tolerance {:e} below the floor {:e}", pc.pin, pc.tol, floor));
@@ -518,9 +552,11 @@ fn gen_roots(rng: &mut Rng, deg: usize, real: bool) -> Vec<C> {
 }
 
 fn gen_lead(rng: &mut Rng, real: bool) -> C {
-    let m = match rng.below(4) {
+    let m = match rng.below(6) {
         0 => 1.0,
         1 => rng.r(0.5, 2.0),
+        // small-scale stratum: the whole polynomial is tiny, its zero tolerance is set below it
+        2 => rng.log10(-13.0, -9.0),
         _ => rng.log10(-2.0, 2.0),
     };
     if real {
@@ -746,9 +782,11 @@ fn ortho_zeros(fam: Fam, n: u32) -> Result<Vec<f64>, String> {
 }
 
 const ORTHO_TOLS: [f64; 8] = [1e-6, 1e-7, 1e-8, 1e-10, 1e-12, 0.0, -0.25, -0.01];
-const POLY_TOL: f64 = 1e-12;
+/// zero tolerances of the constructed polynomial: the usual one, and two far below the root
+/// tolerance (the two tolerances are independent parameters; the crate's own tests use 1e-40)
+const POLY_TOLS: [f64; 3] = [1e-12, 1e-40, 1e-20];
 
-fn run_ortho(rep: &mut Report, fam: Fam, n: u32, tol_choice: f64) {
+fn run_ortho(rep: &mut Report, fam: Fam, n: u32, tol_choice: f64, poly_tol: f64) {
     let name = fam.name();
     let refz = match ortho_zeros(fam, n) {
         Ok(z) => z,
@@ -790,11 +828,11 @@ fn run_ortho(rep: &mut Report, fam: Fam, n: u32, tol_choice: f64) {
     rep.eval();
     rep.count(&format!("{}/cases", name), 1);
     let out = probe::guard(|| match fam {
-        Fam::Legendre => legendre_zeros::<f64>(n, tol, POLY_TOL, N_MAX),
-        Fam::Hermite => hermite_zeros::<f64>(n, tol, POLY_TOL, N_MAX),
-        Fam::Laguerre => laguerre_zeros::<f64>(n, tol, POLY_TOL, N_MAX),
+        Fam::Legendre => legendre_zeros::<f64>(n, tol, poly_tol, N_MAX),
+        Fam::Hermite => hermite_zeros::<f64>(n, tol, poly_tol, N_MAX),
+        Fam::Laguerre => laguerre_zeros::<f64>(n, tol, poly_tol, N_MAX),
     });
-    let case = || J::obj().set("call", format!("{}::<f64>(n, tol, poly_tol, n_max)", name)).set("n", n as u64).set("tol", tol).set("poly_tol", POLY_TOL).set("n_max", N_MAX).set("reference_zeros", J::fs(&refz)).set("tolerance_floor", floor);
+    let case = || J::obj().set("call", format!("{}::<f64>(n, tol, poly_tol, n_max)", name)).set("n", n as u64).set("tol", tol).set("poly_tol", poly_tol).set("n_max", N_MAX).set("reference_zeros", J::fs(&refz)).set("tolerance_floor", floor);
     let z = match out {
         Guarded::Ok(Ok(z)) => z,
         Guarded::Ok(Err(e)) => {
@@ -938,12 +976,14 @@ fn cycle_anchor_cases() -> Vec<PolyCase> {
         .collect()
 }
 
-fn ortho_cases() -> Vec<(Fam, u32, f64)> {
+fn ortho_cases() -> Vec<(Fam, u32, f64, f64)> {
     let mut v = vec![];
     for fam in [Fam::Legendre, Fam::Hermite, Fam::Laguerre] {
         for n in 0..=fam.nmax() {
             for t in ORTHO_TOLS {
-                v.push((fam, n, t));
+                for pt in POLY_TOLS {
+                    v.push((fam, n, t, pt));
+                }
             }
         }
     }
@@ -968,8 +1008,8 @@ pub fn stages(ctx: &Ctx) -> Vec<Stage> {
     let oc = ortho_cases();
     let no = oc.len() as u64;
     st.push(Stage::new("ortho", no, move |i, rep| {
-        let (fam, n, t) = oc[i as usize];
-        run_ortho(rep, fam, n, t);
+        let (fam, n, t, pt) = oc[i as usize];
+        run_ortho(rep, fam, n, t, pt);
     }));
     st.push(Stage::new("random", tier.pick(12_000, 600_000), move |i, rep| {
         let mut rng = Rng::for_case(seed, "c14-random", i);
